@@ -65,7 +65,9 @@ Mutex == UseLock => \A t \in Threads : pc[t] \in {"draw", "test", "append", "unl
 (***************************************************************************)
 (* Sequential creation histories (C15a).  A history is a sequence of        *)
 (* operations "req" (request without header), "ans" (answer), "hdr"         *)
-(* (request from an explicit header); src is the sequence of values the     *)
+(* (request from an explicit header), "ansh" / "reqh" (answer / request     *)
+(* built from the header of the latest request, as the error-answer path    *)
+(* does); src is the sequence of values the                                 *)
 (* random source will return.  Run(ops, src) is the sequence of            *)
 (* [op, hbh, e2e, draws] the library must produce, where hbh/e2e are        *)
 (* positions in src (0 = no identifier drawn).                              *)
